@@ -7,7 +7,7 @@
    and (d) encoding/gob.  The model (Model/Files.v) transcribes mxj's own statements
    - the four read loops with their os.Stat/IsRegular/os.Open preamble, the four
    write loops with the "\n" separator of JsonStringIndent, NewMapGob's and
-   NewMapJson's special cases, the bytes.Replace post-processing of Json(), Copy,
+   NewMapJson's special cases, Json()'s trimming of the encoder output, Copy,
    and the getJson brace scanner - and takes (a)-(d) as PARAMETERS.  Every
    hypothesis below about a parameter (Reads, AtEOF, the behaviour on a truncated
    document, json_dec/gob_dec inverting the encoders) is a quantified premise of the
@@ -53,28 +53,28 @@ Theorem C19_write_read_same_maps : forall (M D : Type) (enc : M -> bytes) (dec :
 Proof. exact write_read_same_maps. Qed.
 Print Assumptions C19_write_read_same_maps.
 
-(* The full statement ("the same number of Maps") is FALSE of the faithful model: a
-   Map whose text decodes to a Map without entries - the JSON document {} - is
-   written and then dropped by the reader's  if len(m) > 0 .  For every codec: *)
-Theorem C19_same_number_refuted : forall (M D : Type) (enc : M -> bytes) (dec : M -> D)
-    (take : bytes -> taken bytes D) (keep : D -> bool) (ij : bool),
-  AtEOF take keep ->
+(* "the same number of Maps": the read loops keep every document whose Map is not nil
+   (fix fd230a2; on the pinned tree they tested len(m) > 0 and the document {} was dropped),
+   and a reader never returns a nil Map with a nil error *)
+Theorem C19_same_number : forall (M : Type) (enc : M -> bytes) (dec : M -> mapraw)
+    (take : bytes -> taken bytes mapraw) (ij : bool),
+  AtEOF take keep_raw ->
   (forall m, Reads take (enc m) (dec m)) ->
   (forall m, Reads take ((if ij then nl else []) ++ enc m) (dec m)) ->
-  forall m0, keep (dec m0) = false ->
-  exists file,
-    maps_file (fun m => Some (enc m)) ij [m0] true = (Some file, false) /\
-    read_all take keep file = FR false [] false.
-Proof. exact unkept_document_skipped. Qed.
-Print Assumptions C19_same_number_refuted.
+  (forall m, map_not_nil (fst (dec m)) = true) ->
+  forall ms, exists file,
+    maps_file (fun m => Some (enc m)) ij ms true = (Some file, false) /\
+    read_all take keep_raw file = FR false (map dec ms) false.
+Proof. exact same_number. Qed.
+Print Assumptions C19_same_number.
 
-(* ... and on the transcribed JSON reader, for every JSON decoder that decodes {} to the empty Map *)
-Theorem C19_empty_object_skipped_refuted : forall json_dec,
+(* ... in particular the document {} on the transcribed JSON reader, Raw and non-Raw *)
+Theorem C19_empty_object_read : forall json_dec,
   json_dec (s "{}") = Ok (VMap []) ->
-  new_maps_from_file_raw (json_reader_raw json_dec) (file_fuel (s "{}")) (Opened (s "{}")) = FR false [] false
-  /\ new_maps_from_file (json_reader_raw json_dec) (file_fuel (s "{}")) (Opened (s "{}")) = FR false [] false.
-Proof. exact empty_object_skipped. Qed.
-Print Assumptions C19_empty_object_skipped_refuted.
+  new_maps_from_file_raw (json_reader_raw json_dec) (file_fuel (s "{}")) (Opened (s "{}")) = FR false [(VMap [], s "{}")] false
+  /\ new_maps_from_file (json_reader_raw json_dec) (file_fuel (s "{}")) (Opened (s "{}")) = FR false [VMap []] false.
+Proof. exact empty_object_read. Qed.
+Print Assumptions C19_empty_object_read.
 
 (* an encoding error anywhere in the list: the writer returns the error and does not touch the file *)
 Theorem C19_write_error_no_file : forall (M : Type) (enc : M -> option bytes) ij ms creatable,
@@ -143,30 +143,47 @@ Theorem C19_unreadable_error : forall (St D : Type) (take : St -> taken St D) ke
 Proof. exact @unreadable_error. Qed.
 Print Assumptions C19_unreadable_error.
 
-(* The clause "malformed files yield an error" is FALSE of the faithful model where the
-   JSON reader is concerned: a closing brace outside any document makes
-   NewMapJsonReaderRaw dereference the nil slice pointer getJson returned, so
-   NewMapsFromJsonFile[Raw] panics instead of returning an error. *)
-Theorem C19_stray_brace_panics_refuted : forall json_dec,
-  new_maps_from_file_raw (json_reader_raw json_dec) (file_fuel (s "}")) (Opened (s "}")) = FRPanic.
-Proof. exact stray_brace_file_panics. Qed.
-Print Assumptions C19_stray_brace_panics_refuted.
+(* JSON documents followed by a closing brace that opens nothing: an error together with the
+   Maps read so far (fix 9f7e6ef; on the pinned tree getJson returned a nil pointer that
+   NewMapJsonReaderRaw dereferenced, and NewMapsFromJsonFile[Raw] panicked) *)
+Theorem C19_stray_brace_error : forall json_dec bs ds rest,
+  Forall2 (Reads (json_reader_raw json_dec)) bs ds ->
+  read_all (json_reader_raw json_dec) keep_raw (concat bs ++ "}"%char :: rest) = FR false (kept keep_raw ds) true.
+Proof. exact stray_brace_file_error. Qed.
+Print Assumptions C19_stray_brace_error.
 
-(* The hypothesis Reads is FALSE of the transcribed JSON reader on a text Json() really
-   writes: after a string value that ends in a backslash (written as two backslashes
-   and a quote) getJson takes the closing quote for an escaped one, the document
-   never closes, and the file of two Maps reads back as an error and no Map. *)
-Theorem C19_trailing_backslash_refuted : forall json_dec,
-  valid_escapes doc_trailing_bsl false = true /\
-  new_maps_from_file_raw (json_reader_raw json_dec) (file_fuel (doc_trailing_bsl ++ doc_plain))
-    (Opened (doc_trailing_bsl ++ doc_plain)) = FR false [] true.
-Proof. exact trailing_backslash_file. Qed.
-Print Assumptions C19_trailing_backslash_refuted.
+(* The hypothesis Reads PROVED of the transcribed getJson scanner for every one-field document
+   {"<key>":"<value>"}: whatever the two string literals contain - braces, escaped quotes,
+   any number of trailing escaped backslashes - the scanner returns exactly the document
+   and leaves the rest unread (fix 419ac2a: escape state; on the pinned tree a value ending
+   in a backslash never closed and the file read back as an error and no Map). *)
+Theorem C19_scan_field_doc : forall k v rest,
+  forallb unit_ok k = true -> forallb unit_ok v = true ->
+  scan_json (field_doc k v ++ rest) = SDoc (field_doc k v) rest.
+Proof. exact scan_field_doc. Qed.
+Print Assumptions C19_scan_field_doc.
+
+Theorem C19_reader_reads_field_doc : forall json_dec k v m,
+  forallb unit_ok k = true -> forallb unit_ok v = true ->
+  json_dec (field_doc k v) = Ok (VMap m) ->
+  Reads (json_reader_raw json_dec) (field_doc k v) (VMap m, field_doc k v).
+Proof. exact reader_reads_field_doc. Qed.
+Print Assumptions C19_reader_reads_field_doc.
+
+(* a file of such documents reads back whole, in order, with each document's text as raw value *)
+Theorem C19_field_docs_file_roundtrip : forall json_dec (kvs : list (list junit * list junit)) (mk : list junit * list junit -> entries),
+  Forall (fun kv => forallb unit_ok (fst kv) = true /\ forallb unit_ok (snd kv) = true /\
+                    json_dec (field_doc (fst kv) (snd kv)) = Ok (VMap (mk kv))) kvs ->
+  read_all (json_reader_raw json_dec) keep_raw (concat (map (fun kv => field_doc (fst kv) (snd kv)) kvs)) =
+  FR false (map (fun kv => (VMap (mk kv), field_doc (fst kv) (snd kv))) kvs) false.
+Proof. exact field_docs_file_roundtrip. Qed.
+Print Assumptions C19_field_docs_file_roundtrip.
 
 (* NOT PROVED: that the real one-document readers satisfy Reads on every text the
    real encoders write, i.e.
      forall m rest, json_reader_raw json_dec (Json(m) ++ rest) = mkTaken (m, Json(m)) RNil rest
-   for string values without a trailing backslash, and the XML analogue.  It needs the
+   for Maps of any shape (proved above for one-field Maps with string values), the indented
+   texts, and the XML analogue.  It needs the
    grammar of the emitted JSON / XML texts (properties C06, C13, C02); here it is a
    hypothesis, evaluated on the implementation for every generated file ("hyp-reads"). *)
 
@@ -199,42 +216,31 @@ Print Assumptions C19_gob_encode_error.
 
 (* ---------------------------------------------------------------- Copy *)
 
-(* Hypothesis about encoding/json together with mxj's rewrite: the decoder maps the
-   bytes Json() hands it back to the Map.  mxj's own code adds the rewrite json_post
-   (three bytes.Replace) and NewMapJson's empty / leading-bracket special cases,
-   neither of which applies to a text that starts with an opening brace. *)
-Theorem C19_copy_eq : forall (marshal : value -> bytes * bool) (json_dec : bytes -> res value) mv j,
-  marshal mv = ("{"%char :: j, false) ->
-  json_dec (json_post ("{"%char :: j)) = Ok mv ->
-  map_copy marshal json_dec mv = Ok mv.
+(* Hypotheses about encoding/json: the Encoder (SetEscapeHTML(false)) writes some bytes b for
+   the Map, and the Decoder maps the bytes Json() hands it - b without the trailing newline -
+   back to the Map.  mxj's own code adds the newline trimming, NewMapJson's empty-input case
+   and its dispatch on the kind of the first value.  No condition on the Map's strings any
+   more: Json() no longer rewrites the marshalled bytes (fix b2598e9; on the pinned tree a
+   value containing backslash-u003c made Json() emit an invalid escape and Copy fail). *)
+Theorem C19_copy_eq : forall (encode : bool -> value -> option bytes) (json_dec : bytes -> res value) m b,
+  encode false (VMap m) = Some b -> trim_nl b <> [] ->
+  json_dec (trim_nl b) = Ok (VMap m) ->
+  map_copy encode json_dec (VMap m) = Ok (VMap m).
 Proof. exact copy_eq. Qed.
 Print Assumptions C19_copy_eq.
 
-(* Hypothesis about encoding/json alone (Unmarshal inverts Marshal on this Map), when
-   the marshalled text contains none of the three six-byte sequences the rewrite looks for *)
-Theorem C19_copy_eq_stdlib : forall (marshal : value -> bytes * bool) (json_dec : bytes -> res value) mv j,
-  marshal mv = ("{"%char :: j, false) ->
-  json_dec ("{"%char :: j) = Ok mv ->
-  containsb esc_lt j = false -> containsb esc_gt j = false -> containsb esc_amp j = false ->
-  map_copy marshal json_dec mv = Ok mv.
+(* the same, stated about encoding/json alone: Encode writes the text j and a newline, Decode reads j back *)
+Theorem C19_copy_eq_stdlib : forall (encode : bool -> value -> option bytes) (json_dec : bytes -> res value) m j,
+  encode false (VMap m) = Some (j ++ [nl_byte]) -> j <> [] ->
+  json_dec j = Ok (VMap m) ->
+  map_copy encode json_dec (VMap m) = Ok (VMap m).
 Proof. exact copy_eq_stdlib. Qed.
 Print Assumptions C19_copy_eq_stdlib.
 
-Theorem C19_copy_marshal_error : forall (marshal : value -> bytes * bool) (json_dec : bytes -> res value) mv j,
-  marshal mv = (j, true) -> map_copy marshal json_dec mv = Err EOther.
-Proof. exact copy_marshal_error. Qed.
-Print Assumptions C19_copy_marshal_error.
-
-(* The rewrite is not sound on every marshalled text: for a string value that is the six
-   characters backslash u003c, json.Marshal writes two backslashes and u003c (valid),
-   Json() turns that into backslash, less-than - an invalid escape; Copy and the JSON
-   file round trip then fail. *)
-Theorem C19_json_rewrite_refuted :
-  valid_escapes marshal_bsl_u003c false = true /\
-  json_post marshal_bsl_u003c = s "{""a"":""" ++ [bsl] ++ s "<""}" /\
-  valid_escapes (json_post marshal_bsl_u003c) false = false.
-Proof. exact json_rewrite_refuted. Qed.
-Print Assumptions C19_json_rewrite_refuted.
+Theorem C19_copy_encode_error : forall (encode : bool -> value -> option bytes) (json_dec : bytes -> res value) mv,
+  encode false mv = None -> map_copy encode json_dec mv = Err EOther.
+Proof. exact copy_encode_error. Qed.
+Print Assumptions C19_copy_encode_error.
 
 (* ---------------------------------------------------------------- non-vacuity *)
 
@@ -259,5 +265,14 @@ Proof. exact ex_truncation. Qed.
 Example C19_gob_copy_instances :
   gob_encodable (VMap [(s "a", VMap [(s "b", VStr (s "1"))]); (s "l", VList [VStr (s "1"); VMap []; VList []])]) = true /\
   gob_encodable (VMap [(s "a", VStr (s "x")); (s "b", VFlt (s "1.5")); (s "c", VBool true)]) = true /\
-  json_post (s "{""a"":""<>&""}") = s "{""a"":""<>&""}".
+  trim_nl (s "{""a"":""<>&""}" ++ [nl_byte]) = s "{""a"":""<>&""}".
 Proof. repeat split; vm_compute; reflexivity. Qed.
+
+(* the file the pinned tree could not read back: a value ending in a backslash, then a second document *)
+Example C19_trailing_backslash_file :
+  doc_trailing_bsl = s "{""a"":""x" ++ [bsl; bsl] ++ s """}" /\
+  new_maps_from_file_raw (json_reader_raw toy_dec) (file_fuel (doc_trailing_bsl ++ doc_plain))
+    (Opened (doc_trailing_bsl ++ doc_plain)) =
+  FR false [(VMap [(s "json", VStr doc_trailing_bsl)], doc_trailing_bsl);
+            (VMap [(s "json", VStr doc_plain)], doc_plain)] false.
+Proof. exact trailing_backslash_file. Qed.
